@@ -1261,6 +1261,6 @@ func ruleREF8(p *Program) *RuleResult {
 			}
 		}
 	}
-	r.floor("field_stores", 8)
+	r.floor("field_stores", 6)
 	return r
 }
